@@ -176,6 +176,72 @@ pub fn eval_reuse(ctx: &mut Ctx, r: &Row, pl: &Placement, vs: &[Vec<u8>]) {
     }
 }
 
+/// history with visitors that do not assign all eight modules: read through the mutable references, invert in
+/// place, write high nibbles and low nibbles in separate passes, skip every other codeword
+pub fn eval_partial_visitors(ctx: &mut Ctx, r: &Row, v: &[u8]) {
+    ctx.eval();
+    let size = r.size;
+    let case = || Case::new("place_partial").with("size", r.name).bytes("cw", v);
+    let res = guard(|| {
+        let mut m = MatrixMap::new_with_codewords(v, size);
+        // (a) read through traverse_mut, write nothing
+        let mut read = vec![0u8; v.len()];
+        m.traverse_mut(|idx, bits| {
+            let mut c = 0u8;
+            for b in bits.iter() {
+                c = (c << 1) | (**b as u8);
+            }
+            read[idx] = c;
+        });
+        let after_read = m.codewords();
+        // (b) invert in place
+        m.traverse_mut(|_, bits| {
+            for b in bits {
+                *b = !*b;
+            }
+        });
+        let after_invert = m.codewords();
+        // (c) overwrite only the high nibble of every codeword with 1010, then only every other codeword's low nibble with 0101
+        m.traverse_mut(|_, bits| {
+            for (j, b) in bits.into_iter().enumerate() {
+                if j < 4 {
+                    *b = j % 2 == 0;
+                }
+            }
+        });
+        let after_high = m.codewords();
+        m.traverse_mut(|idx, bits| {
+            if idx % 2 == 0 {
+                for (j, b) in bits.into_iter().enumerate() {
+                    if j >= 4 {
+                        *b = j % 2 == 1;
+                    }
+                }
+            }
+        });
+        (read, after_read, after_invert, after_high, m.codewords())
+    });
+    match res {
+        Err(p) => ctx.violation("panic", &case(), p),
+        Ok((read, after_read, after_invert, after_high, after_low)) => {
+            let inv: Vec<u8> = v.iter().map(|c| !c).collect();
+            let high: Vec<u8> = inv.iter().map(|c| 0xA0 | (c & 0x0F)).collect();
+            let low: Vec<u8> = high.iter().enumerate().map(|(i, c)| if i % 2 == 0 { (c & 0xF0) | 0x05 } else { *c }).collect();
+            for (name, got, want) in [("read_through_mut", &read, v), ("unchanged_after_read", &after_read, v), ("inverted_in_place", &after_invert, &inv[..]), ("high_nibbles_only", &after_high, &high[..]), ("low_nibbles_of_even_codewords", &after_low, &low[..])] {
+                if &got[..] != want {
+                    let p = got.iter().zip(want).position(|(a, b)| a != b);
+                    return ctx.violation("partial_visitor_loses_content", &case(), format!("{}: codeword {:?} differs (a visitor that does not assign every module must leave the others as they were)", name, p));
+                }
+            }
+            ctx.count("partial_visitors.ok");
+            let mut key = b"partial".to_vec();
+            key.extend_from_slice(r.name.as_bytes());
+            key.extend_from_slice(&v[..v.len().min(12)]);
+            ctx.nontrivial(hash64(&key));
+        }
+    }
+}
+
 pub fn run(ctx: &mut Ctx) {
     let thorough = ctx.is_thorough();
     let mut item = 0usize;
@@ -214,6 +280,7 @@ pub fn run(ctx: &mut Ctx) {
                 let n = ctx.rng.range(2, 4);
                 let vs: Vec<Vec<u8>> = (0..n).map(|j| match (j + k as usize) % 3 { 0 => ctx.rng.bytes(r.total()), 1 => vec![0xFF; r.total()], _ => vec![0; r.total()] }).collect();
                 eval_reuse(ctx, r, &pl, &vs);
+                eval_partial_visitors(ctx, r, &v);
             }
         }
     }
@@ -226,6 +293,7 @@ pub fn replay(ctx: &mut Ctx, case: &Case) {
     match case.kind.as_str() {
         "place_map" => eval_map(ctx, r),
         "place_vec" => eval_vec(ctx, r, &Placement::for_row(r), &case.get_bytes("cw"), "replay"),
+        "place_partial" => eval_partial_visitors(ctx, r, &case.get_bytes("cw")),
         "place_reuse" => {
             let vs: Vec<Vec<u8>> = (0..case.get_usize("n")).map(|i| case.get_bytes(&format!("cw{}", i))).collect();
             eval_reuse(ctx, r, &Placement::for_row(r), &vs);
